@@ -1,4 +1,5 @@
 """C02 - Table behaves as a finite map whatever the hashing does."""
+import os
 from .. import build
 from ..core import Result
 from . import maps
@@ -26,7 +27,8 @@ FUZZ = [{"target": "fz_map", "runs": {"quick": 8000, "thorough": 3000000}, "max_
 
 
 def strategy(tier):
-    return maps.map_case("Table")
+    # VF_MAPS_BASE=1: the generator without the extras (what C05/C10/C12/C18 use) - for sensitivity comparisons only
+    return maps.map_case("Table", extras=not os.environ.get("VF_MAPS_BASE"))
 
 
 def run_case(ctx, case):
